@@ -184,6 +184,17 @@ func (w *world) faultFor(handler string, kinds []int, call int) (int, bool) {
 
 var errInjected = stderrors.New("injected fault")
 
+// injErr varies what the injected error wraps (a fault is a fault, whatever is inside): plain, context.Canceled, context.DeadlineExceeded
+func injErr(call int) error {
+	switch call % 3 {
+	case 1:
+		return fmt.Errorf("%w: %w", errInjected, context.Canceled)
+	case 2:
+		return fmt.Errorf("%w: %w", errInjected, context.DeadlineExceeded)
+	}
+	return errInjected
+}
+
 func (p *faultyPub) Publish(topic string, msgs ...*message.Message) error {
 	w := p.w
 	w.mu.Lock()
@@ -206,14 +217,14 @@ func (p *faultyPub) Publish(topic string, msgs ...*message.Message) error {
 	if has {
 		switch kind {
 		case fPubErrBefore:
-			return errInjected
+			return injErr(call)
 		case fPubPanic:
 			panic("injected publisher panic")
 		}
 	}
 	err := p.inner.Publish(topic, msgs...)
 	if has && kind == fPubErrAfter && err == nil {
-		return errInjected // forwarded, but reported as failed: a duplicate downstream is legal
+		return injErr(call) // forwarded, but reported as failed: a duplicate downstream is legal
 	}
 	if inv != nil && err == nil {
 		w.mu.Lock()
@@ -269,7 +280,7 @@ func run(p pipeline) (viol []string, nontrivial bool) {
 				w.mu.Unlock()
 				if has {
 					if kind == fHandlerErr {
-						return nil, errInjected
+						return nil, injErr(call)
 					}
 					panic("injected handler panic")
 				}
